@@ -100,6 +100,12 @@ def guarded_refill_needs_empty(prog, f, rule, cons=None):
         for x in ast.walk(lp):
             if isinstance(x, ast.If) and not x.orelse and len(x.body) == 1 and isinstance(x.body[0], ast.Assign) \
                     and isinstance(x.body[0].targets[0], ast.Subscript):
+                # only the innermost loop around the guarded store is the refill loop
+                par = x._parent
+                while par is not None and not isinstance(par, (ast.For, ast.While, ast.FunctionDef)):
+                    par = getattr(par, '_parent', None)
+                if par is not lp:
+                    continue
                 t = x.body[0].targets[0]
                 base = t.value
                 if isinstance(base, ast.Attribute) and base.attr == 'dct':
@@ -124,7 +130,9 @@ def guarded_refill_needs_empty(prog, f, rule, cons=None):
                         return True
                     if isinstance(x, ast.Assign):
                         names = [t.id for t in x.targets if isinstance(t, ast.Name)]
-                        if tgt in names and isinstance(x.value, ast.Call) and re.search(r'(from_size|from_shape|blank|SparseVector|SparseArray)$', src(x.value.func)):
+                        if tgt in names and isinstance(x.value, ast.Call) and re.search(r'(from_size|from_shape|blank|SparseVector|SparseArray|dict)$', src(x.value.func)):
+                            return True
+                        if tgt in names and isinstance(x.value, (ast.Dict, ast.DictComp)) and (isinstance(x.value, ast.DictComp) or not x.value.keys):
                             return True
                         if any(isinstance(t, ast.Subscript) and src(t.value) == tgt and src(t.slice) == ':' for t in x.targets) \
                                 and isinstance(x.value, ast.Constant) and x.value.value == 0:
